@@ -36,20 +36,22 @@ func Hex(b []byte) string { return hex.EncodeToString(b) }
 // Encode renders a value.  Unknown object kinds are opaque (type name + identity).
 func Encode(o ugo.Object, ids *Ids) string {
 	var sb strings.Builder
-	encD(&sb, o, ids, 64)
+	enc(&sb, o, ids, 0)
 	return sb.String()
 }
 
-func enc(sb *strings.Builder, o ugo.Object, ids *Ids) { encD(sb, o, ids, 64) }
+// Cyclic marks a value nested deeper than maxDepth: a script can build a cyclic value
+// (`a[0] = a`), which has no finite rendering; streams skip outcomes containing the marker.
+// The cut is made exactly where the Lean driver's imageOf (fuel 64) makes it, and with the
+// same text (`odeep:0`), so that both sides of a correspondence still agree on such values.
+const Cyclic = "odeep:0"
+const maxDepth = 63
 
-// encD cuts values nested deeper than `fuel` levels (cyclic containers such as a[0] = a) exactly
-// like the Lean driver's imageOf does: `odeep:0`.
-func encD(sb *strings.Builder, o ugo.Object, ids *Ids, fuel int) {
-	if fuel <= 0 {
-		sb.WriteString("odeep:0")
+func enc(sb *strings.Builder, o ugo.Object, ids *Ids, depth int) {
+	if depth > maxDepth || sb.Len() > 16<<20 {
+		sb.WriteString(Cyclic)
 		return
 	}
-	enc := func(sb *strings.Builder, o ugo.Object, ids *Ids) { encD(sb, o, ids, fuel-1) }
 	switch v := o.(type) {
 	case nil:
 		sb.WriteString("onil:0")
@@ -83,7 +85,7 @@ func encD(sb *strings.Builder, o ugo.Object, ids *Ids, fuel int) {
 			if i > 0 {
 				sb.WriteByte(' ')
 			}
-			enc(sb, x, ids)
+			enc(sb, x, ids, depth+1)
 		}
 		sb.WriteString(")")
 	case ugo.Map:
@@ -98,7 +100,7 @@ func encD(sb *strings.Builder, o ugo.Object, ids *Ids, fuel int) {
 				sb.WriteByte(' ')
 			}
 			sb.WriteString(Hex([]byte(k)) + "=")
-			enc(sb, v[k], ids)
+			enc(sb, v[k], ids, depth+1)
 		}
 		sb.WriteString(")")
 	default:
